@@ -197,6 +197,8 @@ impl RCmd {
                 c
             }
             P::Manual(q) => RCmd::build(q),
+            // realised through the legacy API: same outputs; hosted like a sibling
+            P::Legacy(q) => single(host(RCmd::build(q), vec![], 0, 0)),
             P::Then(a, b) => single(host(RCmd::build(a), vec![RCmd::build(b)], 0, 0)),
             P::MapEffect(q) => single(host(RCmd::build(q), vec![], 1, 0)),
             P::MapEvent(q) => single(host(RCmd::build(q), vec![], 0, 1)),
@@ -470,7 +472,7 @@ impl RCmd {
                     cx.eff(&mut b, Kind::Once, 0);
                     t.kind = RK::Select { a, b };
                 }
-                P::SpawnAfter(s, m) => {
+                P::SpawnAfter(s, m) | P::MixedNotify(s, m) => {
                     let mut a = Src::new(s);
                     cx.eff(&mut a, Kind::Once, 0);
                     t.kind = RK::SpawnAfter { a, m };
@@ -514,7 +516,7 @@ impl RCmd {
                 }
                 P::Unordered(..) => unreachable!("Unordered is handled by its own check"),
                 P::And(..) | P::Abortable(..) | P::Manual(..) | P::Then(..) | P::MapEffect(_) | P::MapEvent(_)
-                | P::FromInto(_) | P::All(_) | P::SiblingAbort(..) => unreachable!("handled by RCmd::build"),
+                | P::FromInto(_) | P::All(_) | P::SiblingAbort(..) | P::Legacy(_) => unreachable!("handled by RCmd::build"),
             }
         }
         // (re-)poll
